@@ -8,8 +8,11 @@
 package simrt
 
 import (
+	"cmp"
 	"fmt"
+	"reflect"
 	"runtime"
+	"slices"
 	"strconv"
 	"strings"
 	"sync"
@@ -24,6 +27,7 @@ type Task struct {
 	Harness bool // started through Kernel.Go
 	Done    bool
 	Label   string
+	exiting bool // the run is over and this goroutine is unwinding (see Kernel.Kill)
 }
 
 // Parked is a task waiting at a yield point for the kernel to release it.
@@ -31,6 +35,7 @@ type Parked struct {
 	Task *Task
 	Site string
 	ch   chan struct{}
+	die  bool
 }
 
 // Kernel is the scheduling state shared between the yield points and the
@@ -43,6 +48,7 @@ type Kernel struct {
 	nextID   int
 	parked   []*Parked
 	dead     bool
+	dying    bool
 	never    chan struct{}
 	// Focus: when non-nil, only yield sites for which Focus(site) is true
 	// park; the others pass through.
@@ -52,6 +58,10 @@ type Kernel struct {
 	// rng state for the seeded shims (crypto/rand, math/rand)
 	rngmu sync.Mutex
 	rng   uint64
+	// go statements announced by Spawn whose goroutine has not made its first yield yet, by parent goroutine
+	pending map[uint64][]pendingSpawn
+	// AdoptMiss counts goroutines that got their task id on arrival (no Spawn matched).
+	AdoptMiss int
 	// WouldBlock is counted when the root goroutine found a lock held.
 	WouldBlock int
 	// Panics of goroutines of the system under test (see Recover).
@@ -143,6 +153,21 @@ func (k *Kernel) yield(site string, force bool) {
 		<-k.never
 	}
 
+	if k.dying {
+		// the run is over: a goroutine that reaches a yield point ends here (its deferred calls
+		// run, and pass through the yield points they meet), so that what it holds is freed
+		t := k.taskForLocked(g)
+		first := !t.exiting
+		t.exiting = true
+		k.mu.Unlock()
+
+		if first {
+			runtime.Goexit()
+		}
+
+		return
+	}
+
 	if !force && k.Focus != nil && !k.Focus(site) {
 		k.mu.Unlock()
 
@@ -155,17 +180,180 @@ func (k *Kernel) yield(site string, force bool) {
 	k.mu.Unlock()
 
 	<-p.ch
+
+	if p.die {
+		k.mu.Lock()
+		first := !t.exiting
+		t.exiting = true
+		k.mu.Unlock()
+
+		if first {
+			runtime.Goexit()
+		}
+	}
+}
+
+// Kill ends the run for every goroutine that is parked or reaches a yield
+// point from now on: they exit (running their deferred calls) instead of
+// staying blocked for the life of the worker with everything they reference.
+func (k *Kernel) Kill() {
+	k.mu.Lock()
+	k.dying = true
+	ps := k.parked
+	k.parked = nil
+	k.mu.Unlock()
+
+	for _, p := range ps {
+		p.die = true
+		close(p.ch)
+	}
 }
 
 func (k *Kernel) taskForLocked(g uint64) *Task {
 	t, ok := k.tasks[g]
 	if !ok {
-		k.nextID++
-		t = &Task{ID: k.nextID, Goid: g}
+		id := k.adoptLocked()
+		if id == 0 {
+			k.nextID++
+			id = k.nextID
+			k.AdoptMiss++
+		}
+
+		t = &Task{ID: id, Goid: g}
 		k.tasks[g] = t
 	}
 
 	return t
+}
+
+type pendingSpawn struct {
+	site string
+	id   int
+}
+
+// Spawn is called by the spawning goroutine just before a go statement (the
+// rewriter inserts it): it reserves the next task id for the goroutine that
+// the statement at site creates. Task ids then follow the spawn order, which
+// the schedule decides, and not the order in which the Go runtime happens to
+// start the new goroutines.
+func Spawn(site string) {
+	k := cur.Load()
+	if k == nil {
+		return
+	}
+
+	g := Goid()
+
+	k.mu.Lock()
+	defer k.mu.Unlock()
+
+	if k.dead {
+		return
+	}
+
+	k.nextID++
+
+	if k.pending == nil {
+		k.pending = map[uint64][]pendingSpawn{}
+	}
+
+	k.pending[g] = append(k.pending[g], pendingSpawn{site: site, id: k.nextID})
+}
+
+// Reserve returns the next task id, for a goroutine the caller is about to
+// create; the new goroutine passes it to Adopt first thing. (Spawn is the
+// variant for go statements whose body cannot be given the id.) 0: no kernel.
+func Reserve() int {
+	k := cur.Load()
+	if k == nil {
+		return 0
+	}
+
+	k.mu.Lock()
+	defer k.mu.Unlock()
+
+	if k.dead {
+		return 0
+	}
+
+	k.nextID++
+
+	return k.nextID
+}
+
+// Adopt binds the calling goroutine to a reserved task id.
+func Adopt(id int) {
+	k := cur.Load()
+	if k == nil || id == 0 {
+		return
+	}
+
+	g := Goid()
+
+	k.mu.Lock()
+	defer k.mu.Unlock()
+
+	if _, ok := k.tasks[g]; !ok && !k.dead {
+		k.tasks[g] = &Task{ID: id, Goid: g}
+	}
+}
+
+// adoptLocked finds the id reserved for the calling goroutine: its parent and
+// the position of the go statement are read from the "created by" lines of its
+// own stack trace. 0: nothing reserved.
+func (k *Kernel) adoptLocked() int {
+	if len(k.pending) == 0 {
+		return 0
+	}
+
+	buf := make([]byte, 1<<15)
+	n := runtime.Stack(buf, false)
+	tr := string(buf[:n])
+
+	i := strings.LastIndex(tr, "\ncreated by ")
+	if i < 0 {
+		return 0
+	}
+
+	tr = tr[i+1:]
+
+	j := strings.Index(tr, " in goroutine ")
+	if j < 0 {
+		return 0
+	}
+
+	var parent uint64
+
+	x := j + len(" in goroutine ")
+	for ; x < len(tr) && tr[x] >= '0' && tr[x] <= '9'; x++ {
+		parent = parent*10 + uint64(tr[x]-'0')
+	}
+
+	l := strings.Index(tr, "\n\t")
+	if l < 0 {
+		return 0
+	}
+
+	file := tr[l+2:]
+	if e := strings.IndexAny(file, " \n"); e >= 0 {
+		file = file[:e]
+	}
+
+	if m := strings.Index(file, "mitum/"); m >= 0 {
+		file = file[m+6:]
+	}
+
+	ps := k.pending[parent]
+	for q := range ps {
+		if ps[q].site == file || (strings.HasSuffix(ps[q].site, ":*") && strings.HasPrefix(file, ps[q].site[:len(ps[q].site)-1])) {
+			id := ps[q].id
+			k.pending[parent] = append(ps[:q:q], ps[q+1:]...)
+
+			return id
+		}
+	}
+
+	return 0
 }
 
 // callerSite returns "file:line" of the code that called the lock method when
@@ -332,4 +520,125 @@ func Rand64() uint64 {
 	z = (z ^ (z >> 27)) * 0x94d049bb133111eb
 
 	return z ^ (z >> 31)
+}
+
+// MapIter iterates a map in key order with the semantics of a range statement
+// (entries deleted meanwhile are not produced, values are current): the
+// rewriter replaces listed range statements over maps with it.
+type MapIter[K cmp.Ordered, V any] struct {
+	m    map[K]V
+	keys []K
+	i    int
+	K    K
+	V    V
+}
+
+func IterMap[K cmp.Ordered, V any](m map[K]V) *MapIter[K, V] {
+	it := &MapIter[K, V]{m: m, keys: make([]K, 0, len(m))}
+
+	for k := range m {
+		it.keys = append(it.keys, k)
+	}
+
+	slices.Sort(it.keys)
+
+	return it
+}
+
+func (it *MapIter[K, V]) Next() bool {
+	for it.i < len(it.keys) {
+		k := it.keys[it.i]
+		it.i++
+
+		if v, ok := it.m[k]; ok {
+			it.K, it.V = k, v
+
+			return true
+		}
+	}
+
+	return false
+}
+
+// ---- seeded select ----
+//
+// Which ready case a select statement takes is decided by the Go runtime with
+// its own random source. The rewriter turns every (receive-only) select into
+// a switch over Select, which polls the cases in an order rotated by the
+// kernel's seeded generator and blocks only when none is ready (then the first
+// case to become ready wins, which the schedule decides).
+
+type selCase interface {
+	try() bool
+	rcase() reflect.SelectCase
+	set(reflect.Value, bool)
+}
+
+type RecvCase[T any] struct {
+	ch <-chan T
+	v  T
+	ok bool
+}
+
+func R[T any](ch <-chan T) *RecvCase[T] { return &RecvCase[T]{ch: ch} }
+
+func (c *RecvCase[T]) try() bool {
+	select {
+	case v, ok := <-c.ch:
+		c.v, c.ok = v, ok
+
+		return true
+	default:
+		return false
+	}
+}
+
+func (c *RecvCase[T]) rcase() reflect.SelectCase {
+	return reflect.SelectCase{Dir: reflect.SelectRecv, Chan: reflect.ValueOf(c.ch)}
+}
+
+func (c *RecvCase[T]) set(v reflect.Value, ok bool) {
+	if v.IsValid() && v.CanInterface() {
+		c.v, _ = v.Interface().(T)
+	}
+
+	c.ok = ok
+}
+
+func (c *RecvCase[T]) V() T           { return c.v }
+func (c *RecvCase[T]) VOK() (T, bool) { return c.v, c.ok }
+
+// Select returns the index of the chosen case, -1 for default.
+func Select(hasDefault bool, cases ...selCase) int {
+	n := len(cases)
+	start := 0
+
+	if k := cur.Load(); k != nil && n > 1 {
+		start = int(k.Rand64() % uint64(n))
+	}
+
+	for j := 0; j < n; j++ {
+		i := (start + j) % n
+		if cases[i].try() {
+			return i
+		}
+	}
+
+	if hasDefault {
+		return -1
+	}
+
+	if n == 0 {
+		select {}
+	}
+
+	rc := make([]reflect.SelectCase, n)
+	for i := range cases {
+		rc[i] = cases[i].rcase()
+	}
+
+	i, v, ok := reflect.Select(rc)
+	cases[i].set(v, ok)
+
+	return i
 }
